@@ -46,6 +46,8 @@ import (
 //	                                  the whitelist entry declares that the handle designates the object whose fields
 //	                                  are part of this function's field environment
 //	kind "fun":           statement   lhs… = translated function f(args…) on the same receiver
+//	kind "object":        statement   v := f()  at the top level of a plain function: v IS the object of the field environment
+//	kind "mutarg:N":      statement   args[N], lhs… = f(args…)    (external intrinsic writing through its N-th argument)
 type shim struct {
 	kind string
 	f    string   // intrinsic / function name in GoMini
